@@ -1,4 +1,5 @@
 import SelenModel.Model.FloatCore
+import SelenModel.Model.FloatEngine
 import Driver.Util
 /-
 `fl.*` ops of the line protocol: model side (float intervals, float/int store, float views and
@@ -13,6 +14,8 @@ open Selen
 structure FloatSt where
   fi : FI Float := { min := 0.0, max := 0.0, step := 1.0 }
   vars : Array (FVar Float) := #[]
+  /-- propagators posted by `fl.post` (engine-level cases) -/
+  posts : Array (FPK Float) := #[]
 
 def showF (x : Float) : String := if x.isNaN then "nan" else toString x.toBits.toNat
 
@@ -230,6 +233,24 @@ def floatStep (st : FloatSt) (ws : List String) : FloatSt × String :=
       | none => (st, "none")
       | some c => (st.absorb c, s!"some {showStore st.vars.size c.st} {showEv c.ev}")
     | none => (st, "bad-op")
+  | "fl.post" :: r =>
+    match parseFPK r with
+    | some k => ({ st with posts := st.posts.push k }, s!"p{st.posts.size}")
+    | none => (st, "bad-op")
+  | "fl.solve" :: seed :: fuel :: rest =>
+    match parseInt? seed, fuel.toNat? with
+    | some seed, some fuel =>
+      let pf := match rest with | [p] => p.toNat?.getD 10000000 | _ => 10000000
+      let pol := if seed < 0 then Policy.fifo else Policy.seeded seed.toNat
+      let n := st.vars.size
+      match fsolve n pol pf fuel st.posts.toList st.store with
+      | .sol s pc nc =>
+        (st, s!"sol pc={pc} nc={nc} v={",".intercalate ((fsolOf n s).map showVal)} st={showStore n s}")
+      | .nosol => (st, "nosol")
+      | .fuel => (st, "diverge")
+      | .pfuel => (st, "pfuel")
+      | .panic => (st, "panic")
+    | _, _ => (st, "bad-op")
   | _ => (st, "bad-op")
 
 end Driver
